@@ -164,6 +164,20 @@ def classify(exc):
     return 'O'
 
 
+TEMPLATE = []
+
+
+def fresh_wal():
+    '''a new interpreter: Wal() once per worker, then deep copies of that pristine object
+    (8x faster than re-reading std.wal; VERIF_FRESH_WAL=1 constructs every time)'''
+    if os.environ.get('VERIF_FRESH_WAL') == '1':
+        return Wal()
+    if not TEMPLATE:
+        TEMPLATE.append(Wal())
+    import copy
+    return copy.deepcopy(TEMPLATE[0])
+
+
 class Session:
     def __init__(self):
         self.dir = tempfile.mkdtemp(prefix='walsess', dir=os.environ.get('VERIF_SCRATCH'))
@@ -173,7 +187,7 @@ class Session:
         self.model_cmds = []
         self.model_ok = True
         with contextlib.redirect_stdout(io.StringIO()):
-            self.w = Wal()
+            self.w = fresh_wal()
 
     def close(self):
         os.chdir(self.cwd)
